@@ -386,6 +386,8 @@ def run(ctx):
 
     operand_positions(ctx, py, fn, local_defs, theory, STACK, receivers, LABEL, loop)
     antecedent_discharge(ctx, py, fn, loop, LABEL, CONV, STACK, receivers, local_defs)
+    implication_shape(ctx, py)
+    tracker_slots(ctx, py, fn, w, STACK, receivers, loop)
     memory_map(ctx, py, loop, LV, PROOF, STACK, receivers)
     publication(ctx, py, fn, tail, CONV, TARGET, STACK, receivers)
     # the letters of a compressed proof number the target's mandatory hypotheses in database order (shared with C15): the replay
@@ -397,6 +399,16 @@ def run(ctx):
     c15.numbering(ctx, py, ip, conv)
     c15.label_tokens(ctx, py, ip)
     c15.label_numbering(ctx, py, ip)
+    c15.steps_fresh_per_proof(ctx, py, ip, conv)
+    # the converter records a `Z` as a marker constant among the step numbers; the replay recognises the save mark by comparing with
+    # a constant: the two must be the same number (and no step number: the numbers start at 1)
+    c15.step_tokens(ctx, py, ip)
+    mk = ctx.analysed.get('Z marker') or []
+    zconst = sorted({int(m.group(1)) for sp in astpaths.paths(loop.body) for c_, _b in sp.conds
+                     for m in [re.fullmatch(rf'{LV} == (-?\d+)', c_)] if m})
+    ctx.ob('memory-map', 'Z-marker-agrees', len(mk) == 1 and zconst == mk and mk[0] < 1,
+           f'the converter records a `Z` as {mk}, exec_proof recognises the save mark as {zconst}: they must be the same constant, below '
+           f'the first step number 1', py.where(TR, loop))
     floats_from_statement(ctx, py)
     application_fold_order(ctx, py)
     # the step numbers of a compressed proof are decoded by the converter (shared with C15): a wrong digit weight or traversal order
@@ -507,6 +519,117 @@ def antecedent_discharge(ctx, py, fn, loop, LABEL, CONV, STACK, receivers, local
                'essential hypotheses of an axiom: ' + '; '.join(probs) + ' - the derived statement keeps undischarged (or wrongly ordered) '
                'antecedents and is not the Metamath conclusion', where)
     ctx.require(n >= 1, 'exec_proof: the branch replaying an axiom with essential hypotheses was not found')
+
+
+def implication_shape(ctx, py):
+    """the axiom loaded for a rule with essential hypotheses a1 .. an and conclusion c is a1 -> (a2 -> (.. -> (an -> c))): the
+    discharge loop (rule antecedent-discharge) relies on the FIRST antecedent being outermost.  Decided on the values
+    convert_to_implication returns: with antecedents = (a, *rest) it returns Implies(a, c) when rest is empty and
+    Implies(a, convert_to_implication(rest, c)) otherwise."""
+    from ..core.pyeval import PyEval as _PE
+    fn = py.modules[TR].functions.get('convert_to_implication')
+    ctx.require(fn is not None and len(fn.args.args) == 2, 'anchor vanished: convert_to_implication(antecedents, conclusion)')
+    A, C = (('param', a.arg) for a in fn.args.args)
+    HEAD, REST = ('item', A, 0), ('rest', A, 1, 0)
+    probs = []
+    rets = [p for p in _PE().paths(fn) if p.end[0] == 'return']
+    for p in rets:
+        v = p.end[1]
+        more = next((b for c, b in p.conds if c == REST or c == ('cmp', '>', ('call', ('name', 'len'), (REST,), ()), ('const', 0))), None)
+        inner_rec = ('call', ('name', fn.name), (('call', ('name', 'tuple'), (REST,), ()), C), ())
+        inner_rec2 = ('call', ('name', fn.name), (REST, C), ())
+        want = [('call', ('name', 'Implies'), (HEAD, C), ())] if more is False else \
+            [('call', ('name', 'Implies'), (HEAD, inner_rec), ()), ('call', ('name', 'Implies'), (HEAD, inner_rec2), ())] if more is True else []
+        if v not in want:
+            from ..core.pyeval import show as _s
+            probs.append(f'with {"more" if more else "no more"} antecedents it returns `{_s(v)[:70]}`')
+    ctx.ob('operand-position', 'implication-first-antecedent-outermost', len(rets) == 2 and not probs,
+           'convert_to_implication must build a1 -> (a2 -> (.. -> conclusion)): ' + '; '.join(probs) + ' - the replay discharges the '
+           'hypotheses by modus ponens starting with the first one', py.where(TR, fn))
+
+
+def tracker_slots(ctx, py, fn, w, STACK, receivers, loop):
+    """every term handed to a tracked interpreter call in the replay is the stack entry the tracker will compare it with: for each
+    parameter that StatefulInterpreter.<m> asserts equal to `self.stack[-k]`, the argument (locals resolved) is `<stack>[-k]`.
+    And an entry that is loaded back was saved under that name earlier in the same step (or comes from the Z memory)."""
+    n = 0
+    bodies = []
+    for sp in astpaths.paths(loop.body):
+        if sp.end != 'raise':
+            bodies.append(sp.actions)
+    tail = [st for st in fn.body if getattr(st, 'lineno', 0) > loop.lineno and st is not loop and not isinstance(st, ast.FunctionDef)]
+    bodies.append(tail)
+    seen = set()
+
+    def walk(stmts, env, saved):
+        nonlocal n
+        for st in stmts:
+            if isinstance(st, ast.For):
+                inner = {k: v for k, v in env.items() if k not in {x.id for x in ast.walk(st.target) if isinstance(x, ast.Name)}}
+                walk(st.body, inner, saved)
+                continue
+            if isinstance(st, (ast.If, ast.While, ast.With, ast.Try)):
+                continue                      # (paths are already split at ifs; anything else is not a replay step)
+            for c in _own(st):
+                if not (isinstance(c, ast.Call) and isinstance(c.func, ast.Attribute) and ast.unparse(c.func.value) in receivers):
+                    continue
+                meth = c.func.attr
+                args = [ast.unparse(env[a.id]) if isinstance(a, ast.Name) and a.id in env else ast.unparse(a) for a in c.args]
+                if meth == 'save' and len(args) == 2:
+                    saved.append(tuple(args))
+                st_mf = PM.level_facts(py, w.stateful, meth)
+                if st_mf is None or id(c) in seen:
+                    continue
+                seen.add(id(c))
+                binds = {}
+                for rec in st_mf.paths:
+                    for x_, y_ in rec['binds']:
+                        for x, y in ((x_, y_), (y_, x_)):
+                            if x[0] == 'slot' and y[0] == 'param':
+                                binds[y[1]] = x[1]
+                params = [a.arg for a in st_mf.node.args.args[1:]]
+                probs = []
+                for q, a_txt, a_node in zip(params, args, c.args):
+                    if q not in binds:
+                        continue
+                    src = env.get(a_node.id) if isinstance(a_node, ast.Name) else a_node
+                    # the value a tracked call returned is what that call pushed: it is the top as long as nothing was pushed since
+                    pushed_by_call = isinstance(src, ast.Call) and isinstance(src.func, ast.Attribute) and ast.unparse(src.func.value) in receivers \
+                        and binds[q] == 1 and env.get(('last-push',)) is src
+                    if a_txt != f'{STACK}[-{binds[q]}]' and not pushed_by_call:
+                        probs.append(f'`{q}` is `{a_txt[:40]}`, the tracker compares it with {STACK}[-{binds[q]}]')
+                if meth == 'load' and len(args) == 2 and 'mm_memory' not in args[1] and tuple(args) not in saved \
+                        and all(isinstance(a_, ast.Name) and a_.id in env for a_ in c.args):
+                    probs.append(f'load({", ".join(a[:30] for a in args)}) reloads an entry that was not saved under that name earlier in the step')
+                if any(q in binds for q in params) or meth == 'load':
+                    n += 1
+                    ctx.ob('operand-position', f'tracker-slots/{meth}@{c.lineno - fn.lineno}', not probs,
+                           f'exec_proof, {meth}: ' + '; '.join(probs) + ' - the tracker rejects the step (or, for an interpreter without a '
+                           'stack, another term is used)', py.where(TR, c))
+            # bindings made by this statement
+            if isinstance(st, ast.Assign) and len(st.targets) == 1:
+                t = st.targets[0]
+                if isinstance(t, ast.Name):
+                    env[t.id] = st.value
+                    if isinstance(st.value, ast.Call) and isinstance(st.value.func, ast.Attribute) and ast.unparse(st.value.func.value) in receivers:
+                        env[('last-push',)] = st.value
+                elif isinstance(t, ast.Tuple) and isinstance(st.value, ast.Tuple) and len(t.elts) == len(st.value.elts):
+                    for tt, vv in zip(t.elts, st.value.elts):
+                        if isinstance(tt, ast.Name):
+                            env[tt.id] = vv
+                else:
+                    for x in ast.walk(t):
+                        if isinstance(x, ast.Name):
+                            env.pop(x.id, None)
+            elif isinstance(st, ast.AnnAssign) and isinstance(st.target, ast.Name) and st.value is not None:
+                env[st.target.id] = st.value
+            elif isinstance(st, ast.Expr) and isinstance(st.value, ast.Call) and isinstance(st.value.func, ast.Attribute) \
+                    and ast.unparse(st.value.func.value) in receivers and st.value.func.attr not in ('save', 'pop'):
+                env.pop(('last-push',), None)
+
+    for body in bodies:
+        walk(body, {}, [])
+    ctx.require(n >= 8, 'exec_proof: the tracked calls whose operands are stack slots were not recognised')
 
 
 def application_fold_order(ctx, py):
